@@ -30,7 +30,7 @@ VERIF = Path(__file__).resolve().parent.parent
 
 
 def load_sidecars():
-    api.REG = {"contracts": {}, "classes": {}, "invariants": {}, "lemmas": {}, "specs": {}}
+    api.REG = {"contracts": {}, "classes": {}, "invariants": {}, "lemmas": {}, "specs": {}, "ghosts": {}, "stmts": {}}
     cdir = VERIF / "contracts"
     for p in sorted(cdir.glob("*.py")):
         spec = importlib.util.spec_from_file_location("contracts_" + p.stem, p)
@@ -58,6 +58,22 @@ class Ob:
         self.detail = ""
 
 
+def skolemize(goal):
+    """A universally quantified GOAL is proved for fresh constants (equivalent, and much easier for the solver)."""
+    for _ in range(4):
+        if is_z3(goal) and z3.is_quantifier(goal) and goal.is_forall():
+            consts = [z3.Const(fresh_name("sk_" + goal.var_name(i)), goal.var_sort(i))
+                      for i in range(goal.num_vars())]
+            goal = z3.substitute_vars(goal.body(), *reversed(consts))
+        elif is_z3(goal) and z3.is_implies(goal) and z3.is_quantifier(goal.arg(1)) and goal.arg(1).is_forall():
+            q = goal.arg(1)
+            consts = [z3.Const(fresh_name("sk_" + q.var_name(i)), q.var_sort(i)) for i in range(q.num_vars())]
+            goal = z3.Implies(goal.arg(0), z3.substitute_vars(q.body(), *reversed(consts)))
+        else:
+            break
+    return goal
+
+
 class Sink:
     def __init__(self, fkey):
         self.fkey = fkey
@@ -66,6 +82,7 @@ class Sink:
     def oblige(self, st, goal, kind, label, node, frame):
         line = getattr(node, "lineno", 0) if node is not None else 0
         name = f"{self.fkey}/{kind}/{label}"
+        goal = skolemize(goal)
         self.obs.append(Ob(name, kind, label, line, st.assumptions(), goal, self.fkey))
 
 
@@ -105,6 +122,21 @@ def discharge(ob: Ob, timeout_s: int, use_cvc5=True):
     r = s.check()
     ob.backend = "z3-" + z3.get_version_string()
     if r == z3.unknown:
+        # refutation attempt in a small scope: bound every symbolic length by 2 (extra constraints can only
+        # remove models, so a `sat` here is a genuine counter-model of the original VC)
+        s3 = _solver(min(timeout_s, 15) * 1000)
+        lens = set()
+        for a in ob.assumptions + [to_z3(goal)]:
+            _collect_lens(a, lens)
+        for a in ob.assumptions:
+            s3.add(a)
+        s3.add(z3.Not(to_z3(goal)))
+        for nm in lens:
+            s3.add(z3.Int(nm) <= 2)
+        r3 = s3.check()
+        if r3 == z3.sat:
+            r, s = r3, s3
+    if r == z3.unknown:
         # second attempt: different seed / no MBQI, then cvc5
         s2 = _solver(timeout_s * 1000)
         s2.set("smt.random_seed", 7)
@@ -132,6 +164,34 @@ def discharge(ob: Ob, timeout_s: int, use_cvc5=True):
     else:
         ob.verdict = "unknown"
         ob.detail = s.reason_unknown()
+
+
+_len_cache: dict = {}
+
+
+def _collect_lens(e, out):
+    k = e.get_id()
+    if k in _len_cache:
+        out |= _len_cache[k]
+        return
+    mine = set()
+    todo, seen = [e], set()
+    while todo:
+        x = todo.pop()
+        i = x.get_id()
+        if i in seen:
+            continue
+        seen.add(i)
+        if z3.is_quantifier(x):
+            todo.append(x.body())
+            continue
+        if z3.is_const(x) and x.decl().kind() == z3.Z3_OP_UNINTERPRETED and z3.is_int(x):
+            nm = x.decl().name()
+            if "#len" in nm or "#s0" in nm or "#s1" in nm or "#s2" in nm or "#s3" in nm:
+                mine.add(nm)
+        todo.extend(x.children())
+    _len_cache[k] = mine
+    out |= mine
 
 
 # ------------------------------------------------------------------------------------------------ model -> JSON
@@ -289,6 +349,8 @@ def verify_function(key: str, repo: Repo, reg, timeout_s=20) -> FunctionResult:
             else:
                 env["self"] = init_self(I, st, selfcls, is_init, reg)
         st.env = env
+        for g, t in reg["ghosts"].items():
+            st.ghost[g] = fresh(t, "ghost." + g, st, I)
         for g, (t, init) in c.ghost.items():
             st.ghost[g] = fresh(t, "ghost." + g, st, I) if init is None else None
         I.frame = Frame(module, cls, fn, c, None)
@@ -303,7 +365,11 @@ def verify_function(key: str, repo: Repo, reg, timeout_s=20) -> FunctionResult:
             st.assume(I.contract_truth(src, st))
         pre = st.fork()
         I.frame.pre = pre
-        if not I.feasible(st, 5000):
+        vs = z3.Solver()
+        vs.set("timeout", 4000)
+        for a_ in st.assumptions():
+            vs.add(a_)
+        if vs.check() == z3.unsat:
             res.status, res.reason = "vacuous", "precondition + class invariant unsatisfiable"
             return res
         body = [b for b in fn.body]
@@ -505,11 +571,7 @@ def check_frame(I: Interp, c, pre: State, st: State, node):
         if is_init and name == "self":
             continue
         walk(v0, name, 0)
-    for g, v0 in pre.ghost.items():
-        if not _same(v0, st.ghost.get(g)):
-            if g in ghosts:
-                continue
-            I.oblige(st, I.equal(v0, st.ghost[g], st), "M", f"frame[ghost.{g}]", node)
+    # ghost variables are specification state: no frame obligation for them
 
 
 def _unmangle(f):
